@@ -1,6 +1,6 @@
 (** C10 — changing representation loses nothing: the obligations, written out in full. *)
 From Coq Require Import List NArith ZArith String.
-From SK Require Import lib.LGraph lib.StrJoin model.C10_Model proof.C10_Proof proof.C10_Hydrogen proof.C10_Routes proof.C10_GmlWrite proof.C10_HRound proof.C10_Routes2 proof.C10_Reindex proof.C10_MolGraph proof.C10_Smart proof.C10_GmlEH proof.C10_Select proof.C10_MolOk proof.C10_Full proof.C10_Attrs proof.C10_Light.
+From SK Require Import lib.LGraph lib.StrJoin model.C10_Model proof.C10_Proof proof.C10_Hydrogen proof.C10_Routes proof.C10_GmlWrite proof.C10_HRound proof.C10_Routes2 proof.C10_Reindex proof.C10_MolGraph proof.C10_Smart proof.C10_GmlEH proof.C10_Select proof.C10_MolOk proof.C10_Full proof.C10_Attrs proof.C10_Light proof.C10_ReindexEH.
 Import ListNotations.
 Local Open Scope Z_scope.
 
@@ -350,3 +350,26 @@ Theorem C10_light_weight_same_graph :
     (forall n, label g n = label g' n) /\ (forall u v, adj g u v = adj g' u v).
 Proof. exact light_eq. Qed.
 Print Assumptions C10_light_weight_same_graph.
+
+(** reindex=True together with explicit_hydrogen=True (graphs without implicit hydrogens, i.e. every core export): the last
+    cell of the (reindex, explicit_hydrogen) matrix of its_to_gml — the round trip holds up to the renumbering f. *)
+Theorem C10_gml_roundtrip_reindex_explicit_h :
+  forall c : gr, its_ok c = true -> hc_free c = true ->
+    let f := mapget (enum_from 1%N (node_ids c)) in
+    let I' := gml_to_its (its_to_gml c false true true) in
+    (forall k, has_node I' k = true <-> exists n, In n (node_ids c) /\ k = f n) /\
+    (forall n a, label c n = Some a ->
+       label I' (f n) = Some (gml_node (f n) (tg_el (tG_of a)) (tg_ch (tG_of a)) (tg_ch (tH_of a)))) /\
+    (forall u v, In u (node_ids c) -> In v (node_ids c) -> adj I' (f u) (f v) = adj c u v).
+Proof. exact gml_roundtrip_reindex_eh. Qed.
+Print Assumptions C10_gml_roundtrip_reindex_explicit_h.
+
+(** GraphToMol options: with the flags graph_to_smi passes (ignore_bond_order=False, use_h_count=True) the general converter
+    of the model is the one the round-trip theorems are about; whatever ignore_bond_order is, the atoms handed to RDKit are
+    the same. *)
+Theorem C10_graph_to_mol_options :
+  (forall g : gr, graph_to_mol_gen false true g = graph_to_mol g) /\
+  (forall (ignore : bool) (g : gr) atoms bonds, graph_to_mol_gen ignore true g = Some (atoms, bonds) ->
+     atoms = map (fun p : N * natt => g2m_atom (snd p)) (gnodes g)).
+Proof. split; [exact graph_to_mol_gen_default|exact graph_to_mol_gen_atoms]. Qed.
+Print Assumptions C10_graph_to_mol_options.
